@@ -105,6 +105,14 @@ def amplifiers():
         ("concat_dbl", "local s='x' local n=%d while #s<n do s=s..s end emit(#s)"),
         ("tconcat", "local t={} local n=%d for i=1,1000 do t[i]='x' end emit(#table.concat(t,string.rep('s',n//1000)))"),
         ("format_width", "emit(#string.format('%%'..tostring(math.min(%d,99))..'d',1))"),
+        ("format_prec_d", "emit(#select(2, pcall(string.format, '%%.'..tostring(%d)..'d', 1)))"),
+        ("format_prec_x", "emit(#select(2, pcall(string.format, '%%#.'..tostring(%d)..'x', 1)))"),
+        ("format_prec_f", "emit(#select(2, pcall(string.format, '%%.'..tostring(%d)..'f', 1.5)))"),
+        ("format_width_big", "emit(#select(2, pcall(string.format, '%%'..tostring(%d)..'d', 1)))"),
+        ("load_reader", "local n=math.min(%d,20000) local piece=string.rep(' ',50000) local i=0 "
+                        "emit(type(load(function() i=i+1 if i<=n then return piece end end)))"),
+        ("load_reader_then_error", "local n=math.min(%d,20000) local piece=string.rep(' ',50000) local i=0 "
+                                   "emit(pcall(load, function() i=i+1 if i<=n then return piece end error('stop') end))"),
         ("format_rep", "local n=%d emit(#string.format(string.rep('%%s',math.min(n,100000)),table.unpack({}) ))"),
         ("pack_c", "emit(#string.pack('c'..tostring(%d),'x'))"),
         ("pack_x", "local n=%d emit(#string.pack(string.rep('x',math.min(n,1000000))))"),
